@@ -1197,7 +1197,7 @@ resolve_obj_address		(vbi_decoder *		vbi,
 		return 0;
 	}
 
-	pointer = vtp->data.pop.pointer[packet * 24 + i * 2 + ((address >> 4) & 1)];
+	pointer = vtp->data.pop.pointer[packet * 24 + (i - 1) * 2 + ((address >> 4) & 1)];
 
 	printv("... triplet pointer %d\n", pointer);
 
